@@ -8,6 +8,7 @@ import (
 
 	"github.com/dekarrin/rosed/internal/gem"
 	"github.com/dekarrin/rosed/internal/tb"
+	"github.com/dekarrin/rosed/internal/util"
 
 	"github.com/dekarrin/rosed/internal/manip"
 )
@@ -294,6 +295,17 @@ func (ed Editor) CollapseSpaceOpts(opts Options) Editor {
 // characters, not by the bytes or runes that make it up. See the note on
 // Grapheme-Awareness in the [rosed] package docs for more info.
 func (ed Editor) Delete(start, end int) Editor {
+	// convert the positions to actual character indexes before comparing
+	// them; the raw values may be negative (relative to the end) or End
+	count := ed.CharCount()
+	if start == End {
+		start = count
+	}
+	if end == End {
+		end = count
+	}
+	start, end = util.RangeToIndexes(count, start, end)
+
 	if start >= end {
 		return ed
 	}
